@@ -85,7 +85,7 @@ Fixpoint csem (s : stmt) (ls : list N) {struct s} : comps :=
   | SForIn _ b | SForOf _ b => sem_loop opaque CTrue ls (csem b [])
   | SSwitch _ cs =>
       let ca := snd (csem_c cs) in
-      {| cN := cN ca || cB0 ca || negb (has_default cs); cR := cR ca; cT := cT ca; cB0 := false; cC0 := cC0 ca;
+      {| cN := cN ca || cB0 ca || negb (has_default cs); cR := cR ca; cT := cT ca || tests_throw cs; cB0 := false; cC0 := cC0 ca;
          cBL := cBL ca; cCL := cCL ca |}
   | SLabel _ l b =>
       let c := csem b (l :: ls) in
